@@ -28,12 +28,12 @@ def b(**kw):
 PROPERTIES = {
     "C01": {
         "runs": {
-            "quick": [H("HarnessC01a", b(K=3, CACHE=0))],
+            "quick": [H("HarnessC01a", b(K=3, CACHE=0)), H("HarnessC01a", b(K=3, CACHE=1))],
             "thorough": [H("HarnessC01a", b(K=3, CACHE=0)), H("HarnessC01a", b(K=3, CACHE=1)), H("HarnessC01a", b(K=3, CACHE=0, BF=3)),
                          H("HarnessC01a", b(K=4, CACHE=0), sample_every=500)],
         },
         "labels": ["C01."],
-        "extra_labels": ["uncaught-panic", "deadlock"],
+        "extra_labels": ["uncaught-panic", "deadlock", "nontermination"],
         "must_reach": ["C01.step.iter-seq", "C01.step.get-found", "C01.h.delete.result"],
         "bounds_statement": "histories of <= K operations (insert / delete with arbitrary key and value / persist+reload / clone / persist) from the empty tree over symbolic keys (any order, ties, any layer <= Lmax); battery after every operation",
         "outside": ["histories longer than K", "built-in key types at tree level (covered per type by the C14 leaf harnesses)", "default JSON marshaler", "branch factors other than those listed"],
@@ -41,7 +41,9 @@ PROPERTIES = {
     },
     "C02": {
         "runs": {
-            "quick": [H("HarnessC02a", b(N=3, K1=1, CACHE=1, PERSISTFIRST=1, HREQ=-1, TMASK=7))],
+            "quick": [H("HarnessC02a", b(N=3, K1=1, CACHE=1, PERSISTFIRST=1, HREQ=-1, TMASK=7)),
+                      # two writers through one shared interior node: height-1 base, two trees re-loaded through the cache, inserts only
+                      H("HarnessC02a", b(N=3, K1=2, CACHE=1, PERSISTFIRST=1, HREQ=1, TMASK=12, INSERTONLY=1, LPAT=3), sample_every=500)],
             "thorough": [H("HarnessC02a", b(N=3, K1=1, CACHE=c, PERSISTFIRST=p, HREQ=-1, TMASK=15), sample_every=500) for c in (0, 1, 2) for p in (0, 1)] +
                         [H("HarnessC02a", b(N=2, K1=2, CACHE=1, PERSISTFIRST=1, HREQ=-1, TMASK=15), sample_every=2000)],
         },
@@ -52,8 +54,8 @@ PROPERTIES = {
     },
     "C04": {
         "runs": {
-            "quick": [H("HarnessC04a", b(K=3, NOPS=3))],
-            "thorough": [H("HarnessC04a", b(K=4, NOPS=3), sample_every=200), H("HarnessC04a", b(K=3, NOPS=4)), H("HarnessC04a", b(K=3, NOPS=3, BF=3))],
+            "quick": [H("HarnessC04a", b(K=3, NOPS=3))] + [H("HarnessC04b", b(N=5, K=1, NOPS=2, HREQ=2, LPAT=p)) for p in (18, 6, 19, 63)],
+            "thorough": [H("HarnessC04b", b(N=5, K=1, NOPS=2, HREQ=2), sample_every=500), H("HarnessC04b", b(N=4, K=2, NOPS=2), sample_every=500), H("HarnessC04a", b(K=4, NOPS=3), sample_every=200), H("HarnessC04a", b(K=3, NOPS=4)), H("HarnessC04a", b(K=3, NOPS=3, BF=3))],
         },
         "must_reach": ["C04.height-rule", "C04.same-link"],
         "bounds_statement": "histories of <= K operations from the empty tree; final persisted root compared with (a) the height rule and (b) the root of a fresh tree given the same entries in ascending order",
@@ -71,8 +73,8 @@ PROPERTIES = {
     },
     "C06": {
         "runs": {
-            "quick": [H("HarnessC06a", b(N=2, K=2, MODE=m)) for m in (0, 1, 2, 3, 4, 5, 6)],
-            "thorough": [H("HarnessC06a", b(N=3, K=2, MODE=m), sample_every=300) for m in (0, 1, 2, 3)] + [H("HarnessC06a", b(N=3, K=3, MODE=m), sample_every=300) for m in (2, 3, 4, 5, 6)] +
+            "quick": [H("HarnessC06a", b(N=2, K=2, MODE=m)) for m in (0, 1, 2, 3, 4, 5, 6)] + [H("HarnessC06a", b(N=3, K=1, MODE=7))],
+            "thorough": [H("HarnessC06a", b(N=3, K=2, MODE=m), sample_every=300) for m in (0, 1, 2, 3)] + [H("HarnessC06a", b(N=3, K=3, MODE=m), sample_every=300) for m in (2, 3, 4, 5, 6)] + [H("HarnessC06a", b(N=3, K=2, MODE=7), sample_every=300), H("HarnessC06a", b(N=4, K=1, MODE=7), sample_every=300)] +
                         [H("HarnessC06a", b(N=4, K=1, MODE=m), sample_every=300) for m in (0, 1)],
         },
         "must_reach": ["C06.iter.each-correct", "C06.iter.complete", "C06.iter.ascending-once", "C06.cursor-same-entries", "C06.stop-count"],
@@ -81,8 +83,8 @@ PROPERTIES = {
     },
     "C07": {
         "runs": {
-            "quick": [H("HarnessC07a", b(N=3, K=1, MODE=1)), H("HarnessC07a", b(N=3, K=2, MODE=3))],
-            "thorough": [H("HarnessC07a", b(N=3, K=2, MODE=1), sample_every=500), H("HarnessC07a", b(N=4, K=1, MODE=1), sample_every=500), H("HarnessC07a", b(N=3, K=3, MODE=3), sample_every=500)],
+            "quick": [H("HarnessC07a", b(N=3, K=1, MODE=1)), H("HarnessC07a", b(N=3, K=2, MODE=3)), H("HarnessC07a", b(N=3, K=2, MODE=7))],
+            "thorough": [H("HarnessC07a", b(N=3, K=2, MODE=1), sample_every=500), H("HarnessC07a", b(N=4, K=1, MODE=1), sample_every=500), H("HarnessC07a", b(N=3, K=3, MODE=3), sample_every=500), H("HarnessC07a", b(N=3, K=3, MODE=7), sample_every=500), H("HarnessC07a", b(N=4, K=2, MODE=7), sample_every=500)],
         },
         "must_reach": ["C07.added-covers-new-only-nodes", "C07.added-within-new", "C07.added-once", "C07.removed-covers-old-only-nodes", "C07.replica-content"],
         "bounds_statement": "pairs of persisted versions: descendant (N entries + K operations) and unrelated (N and K entries); reach sets computed by an independent decoder over the store; replica store = old nodes + added nodes",
@@ -90,8 +92,8 @@ PROPERTIES = {
     },
     "C15": {
         "runs": {
-            "quick": [H("HarnessC07a", b(N=3, K=1, MODE=1)), H("HarnessC07a", b(N=3, K=2, MODE=3))],
-            "thorough": [H("HarnessC07a", b(N=3, K=2, MODE=1), sample_every=500), H("HarnessC07a", b(N=4, K=1, MODE=1), sample_every=500), H("HarnessC07a", b(N=3, K=3, MODE=3), sample_every=500)],
+            "quick": [H("HarnessC07a", b(N=3, K=1, MODE=1)), H("HarnessC07a", b(N=3, K=2, MODE=3)), H("HarnessC07a", b(N=3, K=2, MODE=7))],
+            "thorough": [H("HarnessC07a", b(N=3, K=2, MODE=1), sample_every=500), H("HarnessC07a", b(N=4, K=1, MODE=1), sample_every=500), H("HarnessC07a", b(N=3, K=3, MODE=3), sample_every=500), H("HarnessC07a", b(N=3, K=3, MODE=7), sample_every=500), H("HarnessC07a", b(N=4, K=2, MODE=7), sample_every=500)],
         },
         "must_reach": ["C15.difflinks-reads", "C15.diffiter-reads", "C15.same-version-no-reads"],
         "bounds_statement": "same pairs as C07, cache-less store; distinct names passed to Persist.Load during DiffLinks and DiffIter against D = |reach(old) symmetric-difference reach(new)| (a solver-decided inequality per path)",
@@ -108,8 +110,8 @@ PROPERTIES = {
     },
     "C09": {
         "runs": {
-            "quick": [H("HarnessC04a", b(K=3, NOPS=3))],
-            "thorough": [H("HarnessC04a", b(K=4, NOPS=3), sample_every=200), H("HarnessC04a", b(K=3, NOPS=3, BF=3))],
+            "quick": [H("HarnessC04a", b(K=3, NOPS=3))] + [H("HarnessC04b", b(N=5, K=1, NOPS=2, HREQ=2, LPAT=p)) for p in (18, 6, 19, 63)],
+            "thorough": [H("HarnessC04b", b(N=5, K=1, NOPS=2, HREQ=2), sample_every=500), H("HarnessC04b", b(N=4, K=2, NOPS=2), sample_every=500), H("HarnessC04a", b(K=4, NOPS=3), sample_every=200), H("HarnessC04a", b(K=3, NOPS=3, BF=3))],
         },
         "must_reach": ["C09.layers", "C09.ranges", "C09.no-empty-node", "C09.size"],
         "bounds_statement": "persisted version after every history of <= K operations; every reachable node decoded by an independent reader",
@@ -211,11 +213,12 @@ PROPERTIES = {
     },
     "C03": {
         "runs": {
-            "quick": [H("HarnessC03a", b(N=3, CACHE=0), sched=True, preempt=1, no_native=True), H("HarnessC03a", b(N=2, CACHE=1), sched=True, preempt=1, no_native=True), H("HarnessC03b", b(N=3))],
+            "quick": [H("HarnessC03a", b(N=3, CACHE=0), sched=True, preempt=1, no_native=True), H("HarnessC03a", b(N=3, CACHE=1), sched=True, preempt=0, no_native=True), H("HarnessC03b", b(N=3))],
             "thorough": [H("HarnessC03a", b(N=3, CACHE=0), sched=True, preempt=2, no_native=True, sample_every=5000), H("HarnessC03a", b(N=4, CACHE=0), sched=True, preempt=1, no_native=True, sample_every=5000),
                          H("HarnessC03a", b(N=3, CACHE=1), sched=True, preempt=1, no_native=True, sample_every=5000), H("HarnessC03b", b(N=5), sample_every=100)],
         },
-        "must_reach": ["C03.returned-root-is-complete", "C03.no-write-in-flight-at-return", "C03.store-failure-is-reported", "C03.usable-after-error.iter", "C03.retry-root-is-complete", "C03.not-skipped-because-cached-for-another-store"],
+        "extra_labels": ["deadlock", "nontermination"],
+        "must_reach": ["C03.returned-root-is-complete", "C03.no-write-in-flight-at-return", "C03.store-failure-is-reported", "C03.usable-after-error.iter", "C03.retry-root-is-complete", "C03.second-tree-root-is-complete", "C03.not-skipped-because-cached-for-another-store"],
         "bounds_statement": "MakeRoot of a dirty tree of N ascending entries (<= N+2 nodes, far below the 40-slot gate) on a store whose Store calls yield to the scheduler between start and completion; the Store of the node starting with a chosen key fails (or none); every order of the synchronisation steps of the flushing goroutine, the dispatcher and the workers within the preemption bound; then the tree is read and MakeRoot retried without faults; second configuration: one cache shared by two stores with different prefixes",
         "outside": ["gate saturation (> 40 dirty nodes)", "more preemptions than the bound", "more than one failing Store"],
         "assumptions": COMMON_ASSUMPTIONS + ["scheduler: context switches only at synchronisation operations (channel send/receive/close, mutex lock, WaitGroup wait/done, goroutine start/exit) and at the harness yield inside Persist.Store; context-bounded: at most `preempt` switches away from a goroutine that could have continued",
